@@ -1,13 +1,13 @@
 ----------------------------- MODULE MCPoller -----------------------------
 (* Exhaustive configuration of Poller.tla: one Poll of a poller at instance Next0 against every
-   responder script of <= 2 responses: the first any sequence of <= L1 items over the eight
+   responder script of <= 2 responses: the first any sequence of <= L1 items (<= L1b when a second response follows) over the eight
    behaviours with any advertised pending instance (0, one behind, equal, 1/2/5 ahead) or a
    reset stream, the second (only reached when the first made the poller ask again) any
    sequence of <= L2 items.  Each script is one initial state.  With Emit the scripts are
    printed as JSON and played by the scripted stream handler of harness/drivers/certexchange
    to the real polling.Poller.                                                               *)
 EXTENDS Poller, TLC, Json
-CONSTANTS Next0, L1, L2
+CONSTANTS Next0, L1, L1b, L2
 POs == {-100, -1, 0, 1, 2, 5}   \* advertised pending instance relative to the requested one (-100: zero)
 VARIABLES sc
 vars == <<sc>>
@@ -17,7 +17,7 @@ AResps(n) == {[mode |-> "ok", po |-> po, kinds |-> ks] : po \in POs, ks \in Seqs
 \* a second response matters only if the first one leaves the poller asking again: pending ahead, no reset
 Continues(a) == a.mode = "ok" /\ a.po > 0
 Scripts == {<<a>> : a \in AResps(L1)} \cup
-           {<<a, b>> : a \in {x \in AResps(Min(L1, 2)) : Continues(x)}, b \in AResps(L2)}
+           {<<a, b>> : a \in {x \in AResps(L1b) : Continues(x)}, b \in AResps(L2)}
 
 Init == sc \in {[type |-> "abstract", resps |-> s] : s \in Scripts}
 Next == UNCHANGED vars
